@@ -33,7 +33,7 @@ impl FeatureTableRange {
                 let e1 = LitInt::new(&format!("{e0}{repr}"), Span::call_site());
                 let o1 = LitInt::new(&format!("{ofs}{repr}"), Span::call_site());
                 h.push(if with_offset {
-                    quote! {(#b1 ..= #e1, #b1.wrapping_sub(#o1))}
+                    quote! {(#b1 ..= #e1, (#b1).wrapping_sub(#o1))}
                 } else {
                     quote! {(#b1 ..= #e1, ())}
                 });
